@@ -12,6 +12,16 @@ STRING_OPS = ["psv", "ps"]
 INDEX_SIZE = 1536
 
 
+def go_consts():
+    """(indexSize, indexSizeWithSafetyBuffer) as declared in parsed_json.go of the tree under check"""
+    src = open(os.path.join(common.REPO, "parsed_json.go")).read()
+    m1 = re.search(r"^const indexSize = (\d+)", src, re.M)
+    m2 = re.search(r"^const indexSizeWithSafetyBuffer = indexSize - (\d+)", src, re.M)
+    if not (m1 and m2):
+        raise Inconclusive("cannot read indexSize / indexSizeWithSafetyBuffer from parsed_json.go")
+    return int(m1.group(1)), int(m1.group(1)) - int(m2.group(1))
+
+
 def _buf_region(st, name, data, writable=False, size=None):
     return st.add_region(name, size if size is not None else len(data), writable=writable, default="zero",
                          data=[BV(b, 8) for b in data])
@@ -117,7 +127,7 @@ def lifted(prog, q):
         esc, piq, em, pp = _cell(st, "esc", a[1]), _cell(st, "piq", a[2]), _cell(st, "em", a[3]), _cell(st, "pp", a[4])
         base = st.add_region("indexes", INDEX_SIZE * 4, default="zero")
         idx, car, pos = _cell(st, "index", a[5]), _cell(st, "carried", a[6]), _cell(st, "position", a[7])
-        lim = BV(INDEX_SIZE - 128, 64)
+        lim = BV(go_consts()[1], 64)        # the Go wrappers pass indexSizeWithSafetyBuffer
         if x5:
             set_args(st, [BV(b.base, 64), BV(n, 64), esc, piq, em, pp, BV(base.base, 64), idx, lim, car, pos, BV(a[8], 64)])
             f = run("_find_structural_bits_in_slice_avx512")
@@ -204,6 +214,7 @@ def rnd_string(rng):
 
 def make_requests(repo, ops, seed, nrandom):
     rng = random.Random(seed * 7919 + 17)
+    LIM = go_consts()[1]
     reqs = []
     blocks = repo_blocks(repo) if any(o in STAGE1_OPS for o in ops) else []
     rblocks = [rnd_block(rng) for _ in range(nrandom)]
@@ -241,7 +252,7 @@ def make_requests(repo, ops, seed, nrandom):
                     continue
                 data = b"".join(rnd_block(rng) for _ in range(nb + 2))
                 reqs.append({"op": "slice", "fam": fam, "buf": data, "a": [n, rng.randrange(2), rng.choice([0, M64]), rng.choice([0, 9]), rng.randrange(2),
-                                                                           rng.choice([0, 1, 1400, 1407]), rng.randrange(100), rng.choice([M64, 77]), rng.choice([0, 1])]})
+                                                                           rng.choice([0, 1, LIM - 8, LIM - 1]), rng.randrange(100), rng.choice([M64, 77]), rng.choice([0, 1])]})
     if "psv" in ops or "ps" in ops:
         strs = [rnd_string(rng) for _ in range(nrandom)]
         for i, s in enumerate(strs):
